@@ -314,9 +314,14 @@ std::string href_from_file(std::string_view input) {
 
 bool can_parse(std::string_view input, const std::string_view* base_input) {
   // Must match parse().has_value(), including post-normalization max length.
-  // Percent-encoding expands a byte by at most 3x. When the input (plus base,
-  // if any) fits in max_length/3, the normalized href cannot exceed
-  // max_length, so validation-only parsing (store_values=false) is safe.
+  // Percent-encoding expands a byte by at most 3x, but a host can grow more:
+  // IPv4 canonicalization ("ws:0" -> "ws://0.0.0.0/") and IDNA mapping plus
+  // Punycode (a 3-byte code point can map to several code points of up to 7
+  // Punycode digits each). 128x is a conservative bound for all of them: when
+  // the input (plus base, if any) fits in max_length/128, the normalized href
+  // cannot exceed max_length, so validation-only parsing (store_values=false)
+  // is safe.
+  constexpr size_t max_expansion = 128;
 
   // Hot path first: absolute special URLs, no base. Avoid loading max_length
   // until we need it (common absolute-fast true/false cases).
@@ -327,10 +332,10 @@ bool can_parse(std::string_view input, const std::string_view* base_input) {
         return false;
       }
       ADA_VERIF_COUNT(C_CANPARSE_FAST_TRUE);
-      // size <= max/3 => normalized href cannot exceed max (3x expansion).
+      // size <= max/max_expansion => normalized href cannot exceed max.
       // Check this first: default max is ~4GB so almost all URLs return true.
       const uint32_t max_length = ada::get_max_input_length();
-      if (input.size() <= static_cast<size_t>(max_length) / 3) {
+      if (input.size() <= static_cast<size_t>(max_length) / max_expansion) {
         return true;
       }
       if (input.size() > max_length) {
@@ -351,11 +356,12 @@ bool can_parse(std::string_view input, const std::string_view* base_input) {
     return false;
   }
 
-  // Relative resolution combines base + input; bound the sum so 3x expansion
+  // Relative resolution combines base + input; bound the sum so the expansion
   // of either side cannot push the final href past max_length.
   const size_t combined =
       input.size() + (base_input == nullptr ? 0 : base_input->size());
-  const bool size_safe = combined <= static_cast<size_t>(max_length) / 3;
+  const bool size_safe =
+      combined <= static_cast<size_t>(max_length) / max_expansion;
 
   if (size_safe) {
     ADA_VERIF_COUNT(C_CANPARSE_SIZE_SAFE);
